@@ -3,7 +3,7 @@ constants, canonicalisation chains."""
 import json
 import os
 import re
-from astu import C, ctxt, gt_pair, eq_const, strip, strip_all, walk, walkp, txt, short, stmts_of, functions_by, always_throws
+from astu import C, ctxt, gt_pair, eq_const, reach, reach_txt, ctext, strip, strip_all, walk, walkp, txt, short, stmts_of, functions_by, always_throws
 from vlib.core import ob, VERIF
 import a4_twin
 import a4_shape
@@ -92,35 +92,55 @@ def prefix_rule(facts):
 
 
 def dispatch_rule(facts):
-    """readers accept exactly the documented sets of serial versions / sketch types"""
+    """readers accept exactly the documented sets of serial versions / sketch types.  The dispatched field is identified by its
+    rename-invariant identity (spec `on_id`: k-th value read from the stream, k-th local of its type, parameter index, or the
+    identifiers / constants of the expression a local stands for); the accepted values are the case labels of a switch on it and
+    the constants it is compared with by == / != - in the reader itself or in pure-validator helpers it calls (validators.inlined_guards),
+    so a switch rewritten as a chain of comparisons, or guards moved into / out of a helper, give the same set."""
+    import validators
+    import triggers
     sp = spec()["dispatch"]
     out = []
     fns = functions_by(facts)
+    by_pat = {f["pat"]: f for f in fns.values()}
+
+    def ident(e, env):
+        i, k = [], []
+        triggers.idc(e, env, i, k)
+        return [str(x) for x in i if x], sorted(k, key=lambda x: (str(type(x)), x))
     for ent in sp:
-        rect, name, kind, want = ent["record"], ent["function"], ent["kind"], ent["values"]
+        rect, name, want = ent["record"], ent["function"], ent["values"]
         cands = [f for f in fns.values() if (f.get("rect") or "") == "datasketches::" + rect and f["name"] == name and (ent.get("param") is None or (f["params"] and ent["param"] in f["params"][0]["t"]))]
         key = "dispatch:%s::%s(%s):%s" % (rect, name, ent.get("param") or "", ent["what"])
-        if not cands:
+        if not cands or cands[0].get("body") is None:
             out.append(ob("layout.dispatch", key, "", "unrecognised", "reader not found", ""))
             continue
         fn = cands[0]
+        want_id = (ent["on_id"]["ids"], ent["on_id"]["consts"])
         got = set()
-        if kind == "switch":
-            sws = []
-            walk(fn["body"], lambda n: sws.append(n) if n.get("k") == "Switch" and ent["on"] in txt(n["c"]) else None)
-            for s in sws[:1]:
-                walk(s["b"], lambda n: got.add(strip(n["v"]).get("v")) if n.get("k") == "Case" else None)
-        else:
-            # comparisons `var != CONST` that throw / `var == CONST` accepted
+        others = {}
+        env = triggers.flat_env(fn)
+
+        def scan(node, env):
             def v(n):
+                if n.get("k") == "Switch":
+                    tgt = got if ident(n["c"], env) == want_id else others.setdefault(str(ident(n["c"], env)), set())
+                    walk(n["b"], lambda c: tgt.add(strip(c["v"]).get("v")) if c.get("k") == "Case" else None)
                 ec = eq_const(n) if n.get("k") == "Bin" else None
-                if ec and ent["on"] in txt(ec[0]):
-                    got.add(ec[1])
-            walk(fn["body"], v)
+                if ec:
+                    (got if ident(ec[0], env) == want_id else others.setdefault(str(ident(ec[0], env)), set())).add(ec[1])
+            walk(node, v)
+        scan(fn["body"], env)
+        for g in validators.inlined_guards(fn, by_pat):
+            if g[0] != "call" and g[1] is not env:
+                scan(g[0], g[1])
+        got.discard(None)
         if got == set(want):
             out.append(ob("layout.dispatch", key, fn["pat"], "discharged", "%s accepted: %s" % (ent["what"], sorted(got)), fn["qname"]))
+        elif not got and any(v == set(want) for v in others.values()):
+            out.append(ob("layout.dispatch", key, fn["pat"], "unrecognised", "no switch / comparison on the %s field (identity %s) found in %s::%s: re-review spec/layouts.json" % (ent["what"], want_id, rect, name), fn["qname"]))
         else:
-            out.append(ob("layout.dispatch", key, fn["pat"], "violated", "%s accepted by %s::%s are %s; the documented set is %s (images written by earlier releases must stay readable, unknown versions must be rejected)" % (ent["what"], rect, name, sorted(x for x in got if x is not None), sorted(want)), fn["qname"]))
+            out.append(ob("layout.dispatch", key, fn["pat"], "violated", "%s accepted by %s::%s are %s; the documented set is %s (images written by earlier releases must stay readable, unknown versions must be rejected)" % (ent["what"], rect, name, sorted(got), sorted(want)), fn["qname"]))
     return out
 
 
@@ -243,7 +263,9 @@ def ast_digest(fn):
             for x in n:
                 v(x)
     v(fn["body"])
-    return hashlib.sha256(" ".join(toks).encode()).hexdigest()[:20], len(toks)
+    # a bag, not a sequence: swapping independent statements or re-parenthesising does not change it, any changed operator,
+    # literal, cast, loop or call does
+    return hashlib.sha256(" ".join(sorted(toks)).encode()).hexdigest()[:20], len(toks)
 
 
 HASH_DIGEST_FUNCS = ["MurmurHash3_x64_128", "fmix64", "XXHash64::hash", "XXHash64::add", "XXHash64::process", "XXHash64::processSingle", "XXHash64::rotateLeft", "compute_seed_hash", "compute_hash", "canonical_double"]
